@@ -311,7 +311,9 @@ Section Model.
             | Some _ => EUnmodelled
             end
         end
-    | _ => EErr
+    | JArr _ | JObj _ => EErr                                   (* globals()[name]: unhashable key, TypeError *)
+    | _ => EKey                                                 (* None, a bool, a number: no such key, KeyError;
+                                                                   _gate_from_dict then goes on to the next reader *)
     end.
 
   (* _special_gate_from_dict; [rec] is _gate_from_dict on the wrapped dictionary *)
